@@ -150,6 +150,8 @@ func sets() map[string]*set {
 	}
 	addB("bgv97", bgv.ParametersLiteral{LogN: 9, LogQ: []int{50, 40, 40, 40}, LogP: []int{50}, PlaintextModulus: 97})
 	addB("bgv65537", bgv.ParametersLiteral{LogN: 9, LogQ: []int{55, 45, 45, 45}, LogP: []int{55}, PlaintextModulus: 65537})
+	// a plaintext modulus beyond 32 bits (shares and masks are sampled and reduced modulo T in 64-bit words)
+	addB("bgv37", bgv.ParametersLiteral{LogN: 9, LogQ: []int{60, 50, 50, 50}, LogP: []int{60}, PlaintextModulus: 0x1000090001})
 	addC("ckks", ckks.ParametersLiteral{LogN: 9, LogQ: []int{55, 45, 45, 45, 45}, LogP: []int{55}, LogDefaultScale: 45}, 0)
 	addC("ckks-sparse", ckks.ParametersLiteral{LogN: 9, LogQ: []int{55, 45, 45, 45, 45}, LogP: []int{55}, LogDefaultScale: 45}, 3)
 	addC("ckks-ci", ckks.ParametersLiteral{LogN: 9, LogQ: []int{55, 45, 45, 45, 45}, LogP: []int{55}, LogDefaultScale: 45, RingType: ring.ConjugateInvariant}, 0)
@@ -721,6 +723,11 @@ func (r *run) protoRefreshB() *proto {
 			return pr.AggregateShares(*a.(*multiparty.RefreshShare), *b.(*multiparty.RefreshShare), out.(*multiparty.RefreshShare))
 		},
 		finalize: func(s wobj) (final, error) {
+			// every party finalises from the same aggregate: the one judged is the second finalisation
+			out0 := bgv.NewCiphertext(p, 1, p.MaxLevel())
+			if err := pr.Transform(r.ct, f, crp, *s.(*multiparty.RefreshShare), out0); err != nil {
+				return final{}, err
+			}
 			out := bgv.NewCiphertext(p, 1, p.MaxLevel())
 			if err := pr.Transform(r.ct, f, crp, *s.(*multiparty.RefreshShare), out); err != nil {
 				return final{}, err
@@ -771,6 +778,10 @@ func (r *run) protoRefreshC() *proto {
 			return pr.AggregateShares(a.(*multiparty.RefreshShare), b.(*multiparty.RefreshShare), out.(*multiparty.RefreshShare))
 		},
 		finalize: func(s wobj) (final, error) {
+			out0 := ckks.NewCiphertext(p, 1, p.MaxLevel())
+			if err := pr.Transform(r.ct, f, crp, *s.(*multiparty.RefreshShare), out0); err != nil {
+				return final{}, err
+			}
 			out := ckks.NewCiphertext(p, 1, p.MaxLevel())
 			if err := pr.Transform(r.ct, f, crp, *s.(*multiparty.RefreshShare), out); err != nil {
 				return final{}, err
